@@ -27,5 +27,18 @@ def replay(prop, path):
             return 1
         print('replay: property holds on this input now')
         return 0
+    if d.get('replayer') == 'harness:concrete':
+        # the real templates on the recorded concrete weights inside the symbolic harness (address-order dependent counterexamples)
+        hsrc = 'harness/h_approx.cpp' if (d['line'].startswith('algo=approx') or d['line'].startswith('algo=spanner')) else 'harness/h_exact.cpp'
+        h = build(hsrc, 'symx')
+        s2, log2 = run_harness(h, [d['line']], prop + '-replay', timeout=300)
+        a2 = Agg([prop + ':'])
+        a2.add_log(log2)
+        print(json.dumps({'violated': [o['name'] for _, o in a2.violated][:6]}))
+        if a2.violated:
+            print('VIOLATION property=%s replay=%s' % (prop, path))
+            return 1
+        print('replay: property holds on this input now')
+        return 0
     print('unknown replay file format')
     return 2
